@@ -33,4 +33,10 @@ try:
         out.append(row)
 finally:
     clean()
-json.dump(out, open(os.path.join(ROOT, "seeded", "last_results.json"), "w"), indent=1)
+res_path = os.path.join(ROOT, "seeded", "last_results.json")
+if only and os.path.exists(res_path):
+    # partial run: merge into the previous results
+    prev = {r["id"]: r for r in json.load(open(res_path))}
+    prev.update({r["id"]: r for r in out})
+    out = [prev[k] for k in sorted(prev)]
+json.dump(out, open(res_path, "w"), indent=1)
